@@ -89,6 +89,13 @@ checks.update({
    note="Cross terms between groups are not covered. Don't-care: hybrid code+id_token ID token without implicit grant; unsigned request object when no algorithm is registered."),
 })
 
+checks.update({
+ "C14": dict(level="exploration", engine="ENUM", ref="DESIGN.md §5 C14",
+   technique="exhaustive enumeration of flow x key/algorithm x nonce x auth_time x max_age x prompt x id_token_hint x preset expiry x extra-claims on the real provider; every ID token verified with the public key and recomputed from the same response",
+   text="8 OpenID flows (code, implicit x2, hybrid x3, refresh chains of 3, device) x 7 key/algorithm pairs (ES256/384/512, RS256/384/512, PS256) x nonce x the auth_time/max_age/prompt/hint/preset-expiry/extras grid: every ID token in any response verifies under the server key, names the client in aud, carries session subject and issuer, echoes the nonce, expires within the configured lifetime (unless preset), and its at_hash / c_hash equal the left half of the alg-selected hash of the access token / code of the same response; refresh drops c_hash; unsatisfied max_age / prompt (incl. multi-valued) / hint, empty subject, missing openid scope or a past preset expiry issue nothing.",
+   note="Session alg header is set to the key's algorithm (integrator duty); refreshed ID tokens may omit the nonce (OIDC Core 12.2) but must not change it."),
+})
+
 # properties not (yet) claimed: reason
 not_applicable = {
 }
@@ -109,7 +116,7 @@ man = {
  "engines": [
   {"name": "HIST", "path": "h/fam.go", "serves_properties": ["C01", "C04", "C08", "C09"], "kind_free_text": "explicit-state breadth-first search over API histories of the real provider, lock-step reference model, worker subprocesses, global dedup on canonical store dump"},
   {"name": "SEQ", "path": "h/c03.go", "serves_properties": ["C03", "C16", "C17"], "kind_free_text": "exhaustive bounded enumeration of operation sequences on the real provider"},
-  {"name": "ENUM", "path": "h/c02.go h/c05.go h/c06.go h/c07.go h/c10.go h/c11.go h/c12.go h/c13.go", "serves_properties": ["C02", "C05", "C06", "C07", "C10", "C11", "C12", "C13"], "kind_free_text": "exhaustive enumeration of finite input/configuration/history-position products, each case executed on a fresh real provider and judged by an independent reference predicate"},
+  {"name": "ENUM", "path": "h/c02.go h/c05.go h/c06.go h/c07.go h/c10.go h/c11.go h/c12.go h/c13.go h/c14.go", "serves_properties": ["C02", "C05", "C06", "C07", "C10", "C11", "C12", "C13", "C14"], "kind_free_text": "exhaustive enumeration of finite input/configuration/history-position products, each case executed on a fresh real provider and judged by an independent reference predicate"},
  ],
  "checks": [],
  "notes": "All checks rebuild the instrumented harness from /repo's working tree (./verif). Violations are re-executed 5x from their artefact before being reported; known findings live in /verif/known_findings.json.",
